@@ -269,11 +269,15 @@ pub fn sanitize_idx(want: &IndexSet, current: &IndexSet, model: &Model) -> Index
     out
 }
 
+/// Object size limit of the harness databases (the crate's default is 2000 KiB): small enough that a
+/// generated document can exceed it cheaply, far above everything else the histories write.
+pub const OBJECT_SIZE_LIMIT: usize = 64 * 1024;
+
 pub fn db_config(compress: bool) -> DBConfig {
     DBConfig {
         name: "vdb".into(),
         description: "verif".into(),
-        storage: StorageConfig { compress_level: if compress { 3 } else { 0 }, bucket_overload_size: 96, ..Default::default() },
+        storage: StorageConfig { compress_level: if compress { 3 } else { 0 }, bucket_overload_size: 96, max_small_object_size: OBJECT_SIZE_LIMIT, ..Default::default() },
         lock: None,
     }
 }
